@@ -1394,11 +1394,24 @@ def extract_runtime(src: Path) -> str:
                 continue
             copies_state = ast.unparse(pw[0].args[4]) in ("ConnectionState(self.state.copy())", "ConnectionState(dict(self.state))",
                                                           "ConnectionState({**self.state})")
+            # how much one read may return (module constant MAX_RECV, the argument of the read call)
+            max_recv = None
+            for n in tcp.body:
+                if isinstance(n, ast.Assign) and ast.unparse(n.targets[0]) == "MAX_RECV":
+                    try:
+                        max_recv = int(eval(compile(ast.Expression(n.value), "<MAX_RECV>", "eval"), {"__builtins__": {}}))
+                    except Exception:
+                        max_recv = None
+            read_args = [ast.unparse(c.args[0]) for c in ast.walk(rd) if isinstance(c, ast.Call) and ast.unparse(c.func) in
+                         ("self.reader.read", "self.stream.receive_some") and c.args]
+            if max_recv is None or read_args != ["MAX_RECV"]:
+                fail(f"runtime {worker}", f"read size not recognised (MAX_RECV = {max_recv}, read call arguments {read_args})")
+                continue
             b = lambda x: "true" if x else "false"  # noqa: E731
             out.append(f"def {worker}Rt : Runtime :=\n  {{ closedReenters := {b(closed_reenters)}, closeStopsIdle := {b(close_stops_idle)}, readEndStopsIdle := {b(read_end_stops)},\n"
                        f"    eofAlwaysPassedOn := {b(eof_always)}, writeErrorClosesProtocol := {b(write_err_closes)},\n"
                        f"    timerTellsProtocolFirst := {b(timer_first)}, clearReplaces := {b(replaces)}, stopAwaitsCancelled := {b(awaits_cancelled)},\n"
-                       f"    copiesState := {b(copies_state)} }}")
+                       f"    copiesState := {b(copies_state)}, maxRecv := {max_recv} }}")
         except Exception as e:
             fail(f"runtime {worker}", f"{type(e).__name__}: {e}")
     out += ["end HC.Extracted.Runtime", ""]
